@@ -165,10 +165,11 @@ func (s *sim) senderAddr(d *dgram) net.Addr {
 	case "nonudp": // a connection whose senders are not UDP addresses (a raw IP or packet socket behind WithConn)
 		return &net.IPAddr{IP: net.IPv4(10, 1, 2, byte(d.id))}
 	case "ip":
+		// every datagram from a sender of its own (a server meets thousands of them in its life)
 		if s.v4 {
-			ip = net.IPv4(10, 1, 2, byte(d.id))
+			ip = net.IPv4(10, 1, byte(d.id>>8), byte(d.id))
 		} else {
-			ip = net.ParseIP("fe80::1")
+			ip = net.ParseIP(fmt.Sprintf("fe80::%x", d.id+1))
 		}
 	case "zeroip":
 		if s.v4 {
@@ -655,7 +656,11 @@ func (s *sim) run(t *testing.T, steps []step, randomN int) {
 	}
 	if s.soak > 0 {
 		cl := soakClasses[(s.soak-1)%len(soakClasses)]
-		for i := 0; i < 70+s.rng.Intn(70); i++ {
+		cnt := 70 + s.rng.Intn(70)
+		if s.soak > len(soakClasses) {
+			cnt = 300 + s.rng.Intn(40) // ... and by the several hundred, each from a sender of its own
+		}
+		for i := 0; i < cnt; i++ {
 			s.arrive(cl[0], cl[1], 68)
 			doRead(0)
 			doReturn(0)
@@ -894,7 +899,7 @@ func TestServerSim(t *testing.T) {
 		one(i%2 == 0, 1+(i/2)%3/2, "random", nil, n) // every third pair with two goroutines running Serve
 	}
 	// soak runs: each class of skipped datagram by the hundred, on both servers, then ordinary traffic
-	for k := 1; k <= len(soakClasses); k++ {
+	for k := 1; k <= len(soakClasses)+2; k++ {
 		soak = k
 		one(true, 1, "soak", nil, 40)
 		one(false, 1, "soak", nil, 40)
